@@ -58,6 +58,12 @@ func init() {
 			mk("invalidate‖insert-evict", CacheCfg{MaxSize: 2}, []string{"set 1", "set 2"}, [][]string{{"inv 1"}, {"set 3"}})
 			mk("update‖setmax", CacheCfg{MaxWeight: 4}, []string{"set 1 2", "set 2 1"}, [][]string{{"set 1 1"}, {"setmax 1"}})
 			mk("update‖expire", CacheCfg{Expiry: "writing", TTL: 10, ClockStart: 1 << 40}, []string{"set 1", "set 2"}, [][]string{{"set 1"}, {"adv 5000000000", "cleanup"}})
+			// systematic matrix: every counting operation against every kind of writer on a bounded cache (nodes get retired)
+			for _, rd := range []string{"get 1", "gete 1", "load 1 val", "cw 1", "cc 1", "cia 1", "cipw 1", "bulk 1,2 full"} {
+				for _, wr := range []string{"set 1", "inv 1", "set 3", "invall"} {
+					mk("matrix:"+rd+"‖"+wr, CacheCfg{MaxSize: 2}, []string{"set 1", "set 2"}, [][]string{{rd}, {wr}})
+				}
+			}
 		}
 		return jobs
 	}
